@@ -14,7 +14,9 @@
 //! trusted: closed_monitor: ChannelMonitorImpl::no_further_updates_allowed is extracted whole (three-flag skeleton of the monitor); update_monitor: the match that classifies each step of an update as pre-close and the condition of the final refusal are deep R15 slices; ChannelMonitorUpdateStep is re-declared with its eleven variant names and dummy payloads (the source patterns use `{ .. }`); applying the steps is dropped and not claimed
 //! trusted: holder_funding_claim: HolderFundingOutput::get_maybe_signed_commitment_tx: the expression that chooses the holder commitment to sign is sliced; OnchainTxHandler is a two-field skeleton with current_holder_commitment_tx / prev_holder_commitment_tx; signing itself is dropped and not claimed; assume_specification for Option::or (std definition; environment completeness)
 //! trusted: R15 (deep slice): channel_reestablish: the statement `let required_revoke = ..;` verbatim as a function of the message and our commitment number (self is the skeleton {channel_state.in_progress, the three monitor_pending flags}; get_last_revoke_and_ack is a recorder returning an uninterpreted message; the relation between the two numbers established by the stale-state checks before it is the precondition, so the `debug_assert!(false)` of the last arm is proved unreachable)
+//! trusted: R15 (deep slice): update_monitor: the arm of the step ChannelForceClosed verbatim as a function of the monitor (skeleton {lockdown_from_offchain, holder_tx_signed, funding_spend_confirmed, onchain_events_awaiting_threshold_conf, ghost log of queue_latest_holder_commitment_txn_for_broadcast calls}); the arm's `continue` is `return` (the loop body is the match alone); the two log-only branches after the broadcast are dropped; R6: `.iter().any(|event| P)` is an index loop carrying P verbatim, the quantifier written in the source selects the result (macro iter_quantifier!)
 use vstd::prelude::*;
+macro_rules! iter_quantifier { (any, $some:expr, $every:expr) => { $some }; (all, $some:expr, $every:expr) => { $every }; }
 verus! {
 use vstd::std_specs::cmp::*;
 use core::cmp;
@@ -383,6 +385,64 @@ impl ChannelMonitorImpl {
 //@ret r
 //@ensures P C05,C10 an-otherwise-valid-update-that-advances-commitment-state-is-refused-once-the-monitor-is-closed
     r == (*ret is Ok && (self.funding_spend_seen || self.lockdown_from_offchain || self.holder_tx_signed) && is_pre_close_update),
+//@end
+}
+}
+
+// ---- update_monitor, step ChannelForceClosed: the monitor is locked down first, and our commitment is queued for broadcast
+// exactly when the manager asked for it and no spend of the funding output has been seen confirmed -------------------------
+pub mod force_closed_step {
+use vstd::prelude::*;
+pub struct Txid {}
+pub enum OnchainEvent { HTLCUpdate { x: u8 }, MaturingOutput { x: u8 }, FundingSpendConfirmation { x: u8 }, HTLCSpendConfirmation { x: u8 }, AlternativeFundingConfirmation {} }
+pub struct OnchainEventEntry { pub event: OnchainEvent, pub height: u32 }
+pub struct Broadcaster {} pub struct Estimator {} pub struct Logger {}
+// `queued`: ghost record of the call that hands our latest commitment to the claim handler (it marks it as signed: holder_tx_signed)
+pub struct ChannelMonitorImpl { pub lockdown_from_offchain: bool, pub holder_tx_signed: bool, pub funding_spend_confirmed: Option<Txid>,
+    pub onchain_events_awaiting_threshold_conf: Vec<OnchainEventEntry>, pub queued: Ghost<Seq<bool>> }
+pub open spec fn spend_of_the_funding_output_seen_confirmed(m: ChannelMonitorImpl) -> bool {
+    m.funding_spend_confirmed is Some || exists|k: int| 0 <= k < m.onchain_events_awaiting_threshold_conf@.len() && (#[trigger] m.onchain_events_awaiting_threshold_conf@[k]).event is FundingSpendConfirmation
+}
+impl ChannelMonitorImpl {
+    #[verifier::external_body] pub fn queue_latest_holder_commitment_txn_for_broadcast(&mut self, broadcaster: &Broadcaster, fee_estimator: &Estimator, logger: &Logger, require_funding_seen: bool)
+        ensures final(self).queued@ == old(self).queued@.push(require_funding_seen), final(self).holder_tx_signed, final(self).lockdown_from_offchain == old(self).lockdown_from_offchain,
+            final(self).funding_spend_confirmed == old(self).funding_spend_confirmed, final(self).onchain_events_awaiting_threshold_conf == old(self).onchain_events_awaiting_threshold_conf { unimplemented!() }
+//@extract lightning/src/chain/channelmonitor.rs :: impl ChannelMonitorImpl :: fn update_monitor
+//@slice R15
+    ChannelMonitorUpdateStep::ChannelForceClosed { should_broadcast } => { $lock:straight if $sb:cond { let detected_funding_spend = $fs:seq || self.onchain_events_awaiting_threshold_conf.iter().$q:ident(|event| $p:seq); if $det:cond { continue; } $bc:straight } else $rest:any }, ChannelMonitorUpdateStep::ShutdownScript
+//@with
+    fn apply_channel_force_closed(&mut self, should_broadcast: &bool, broadcaster: &Broadcaster, bounded_fee_estimator: Estimator, logger: &Logger) {
+        $lock
+        if $sb {
+            // R6: `E.iter().any(|p| P)` / `.all(|p| P)` as an index loop carrying P verbatim
+            let mut __some = false; let mut __every = true; let mut __i: usize = 0;
+            while __i < self.onchain_events_awaiting_threshold_conf.len()
+                invariant __i <= self.onchain_events_awaiting_threshold_conf@.len(),
+                    __some == (exists|k: int| 0 <= k < __i && (#[trigger] self.onchain_events_awaiting_threshold_conf@[k]).event is FundingSpendConfirmation),
+                    __every == (forall|k: int| 0 <= k < __i ==> (#[trigger] self.onchain_events_awaiting_threshold_conf@[k]).event is FundingSpendConfirmation),
+                decreases self.onchain_events_awaiting_threshold_conf@.len() - __i
+            { let event = &self.onchain_events_awaiting_threshold_conf[__i]; let __b: bool = $p; if __b { __some = true; } else { __every = false; } __i = __i + 1; }
+            let detected_funding_spend = $fs || iter_quantifier!($q, __some, __every);
+            // the loop body is this match alone: `continue` leaves the step
+            if $det { return; }
+            $bc
+        } }
+//@ensures P C05,C10 a-force-closed-step-locks-the-monitor-down-and-queues-our-commitment-for-broadcast-only-when-asked-to-and-no-funding-spend-was-seen-confirmed
+    final(self).lockdown_from_offchain,
+    *should_broadcast && !spend_of_the_funding_output_seen_confirmed(*old(self)) ==> final(self).queued@ == old(self).queued@.push(true) && final(self).holder_tx_signed,
+    !(*should_broadcast && !spend_of_the_funding_output_seen_confirmed(*old(self))) ==> final(self).queued@ == old(self).queued@ && final(self).holder_tx_signed == old(self).holder_tx_signed,
+//@mutant monitor_locked_down_only_when_it_broadcasts
+    self.lockdown_from_offchain = true;
+//@with
+    self.lockdown_from_offchain = *should_broadcast;
+//@mutant commitment_broadcast_unless_every_awaited_event_is_a_funding_spend
+    self.onchain_events_awaiting_threshold_conf.iter().any( |event| matches!(event.event, OnchainEvent::FundingSpendConfirmation
+//@with
+    self.onchain_events_awaiting_threshold_conf.iter().all( |event| matches!(event.event, OnchainEvent::FundingSpendConfirmation
+//@mutant commitment_broadcast_only_after_a_funding_spend_was_seen
+    if detected_funding_spend {
+//@with
+    if !detected_funding_spend {
 //@end
 }
 }
